@@ -717,13 +717,24 @@ def run_history(ctx, case, with_sample: bool = True) -> None:
                         phase = kinds[k] if k < n_steps else 'end'
                         restore(root, pre_snap)
                         inj.arm('crash', k, n_steps, cuts[k % len(cuts)])
+                        diverged = None
                         try:
                             loop.complete(make())
-                            raise HarnessBug(f'crash point {k}/{n_steps} of {kind} not reached (steps {inj.steps})')
+                            diverged = f'completed without reaching file-system step {k}/{n_steps}'
                         except Crash:
                             pass
+                        except HarnessBug:
+                            raise
+                        except Exception as e:  # noqa: BLE001 - judged below
+                            diverged = f'raised {e!r}'
                         finally:
                             inj.disarm()
+                        if diverged is not None:
+                            # The same operation on the same (restored) file state must take the same
+                            # file-system steps: if it does not, the instance carries state that is not
+                            # in the file, so what it returns no longer equals the applied history.
+                            fail(f'instance_state_outside_file/{kind}',
+                                 f'{kind} re-run on the restored pre-state {diverged}', step, crash=True)
                         counts['points'] += 1
                         counts[phase if phase in counts else 'other'] += 1
                         if phase == 'write':
